@@ -27,6 +27,13 @@ fn check(s: &Setup) -> Outcome {
         (st.full > 0, "insert-full"),
         (st.local_ops > 0, "local-key-op"),
         (st.max_fill >= 3, "bucket-fill>=3"),
+        (st.pending_status_changed > 0, "pending-status-changed-while-waiting"),
+        (st.disc_pending_applied_mixed > 0, "disconnected-pending-applied-to-mixed-full-bucket"),
+        (st.conn_pending_applied_mixed > 0, "connected-pending-applied-to-mixed-full-bucket"),
+        (st.removed_while_pending > 0, "entry-removed-while-pending-waits"),
+        (st.refilled_while_pending > 0, "slot-refilled-while-pending-waits"),
+        (st.ready_pending_dropped > 0, "ready-pending-dropped(bucket-full-of-connected)"),
+        (st.ready_pending_dropped_after_refill > 0, "ready-pending-dropped-after-removal+refill"),
     ] {
         if f {
             labels.push(l);
@@ -68,6 +75,19 @@ fn sweep_check(c: &SweepCase) -> Outcome {
     check(&s)
 }
 
+/// states with a waiting pending entry from which the second sweep starts
+fn pending_prefix(which: usize) -> (u8, Vec<u8>) {
+    match which {
+        // bucket_size 1: [3:D] + pending 4:C
+        0 => (1, vec![0, 2]),
+        // bucket_size 2: [3:D, 4:C] + pending 5:C   (disconnected and connected entries)
+        1 => (2, vec![0, 2, 3]),
+        // bucket_size 2: [3:D, 4:D] + pending 5:C
+        _ => (2, vec![0, 1, 3]),
+    }
+}
+const PREFIXES: usize = 3;
+
 pub fn run(ctx: &mut Ctx) {
     ctx.assume("the real KBucketsTable<KeyBytes,u32> is driven through the cfg(libp2p_verif) shim verif::Table (Entry API, iter, bucket, take_applied_pending, read-only snapshot) and the kbucket module reads libp2p_core::verif_clock under the cfg");
     ctx.assume("reference model = the algorithm documented in kbucket/bucket.rs (ordered list per bucket with per-node status, one pending slot with a deadline, lazy application on access)");
@@ -91,10 +111,29 @@ pub fn run(ctx: &mut Ctx) {
         },
         &sweep_check,
     );
+    let tail = ctx.tier.sel(4usize, 5usize);
+    let per = ALPHA.pow(tail as u32);
+    ctx.sweep(
+        "exhaustive-from-pending",
+        &format!("from each of 3 states with a waiting pending entry (bucket_size 1: one disconnected entry; bucket_size 2: a disconnected and a connected entry; bucket_size 2: two disconnected entries; the pending entry is connected) every sequence of exactly {tail} further ops over the same 13-op alphabet (status change of the pending entry, removal of the head, refills, reconnects, timeout and timeout-1ms, look/iter); non-trivial as above"),
+        true,
+        &|lane| {
+            (0..PREFIXES * per).skip(lane).step_by(LANES).map(move |i| {
+                let (bucket_size, mut syms) = pending_prefix(i / per);
+                let mut x = i % per;
+                for _ in 0..tail {
+                    syms.push((x % ALPHA) as u8);
+                    x /= ALPHA;
+                }
+                SweepCase { bucket_size, syms }
+            })
+        },
+        &sweep_check,
+    );
     let max_ops = ctx.tier.sel(60usize, 120usize);
     ctx.check(
         "random",
-        "local key in {0, all-ones, a SHA-256 image, 0x5a..01}; pool of 24 keys at chosen distances (1 in bucket 0, 2 in bucket 1, 8 in bucket 3, 5 in bucket 130, 8 in bucket 255) + the local key; bucket_size 1..4; pending_timeout 1..10 s; up to 60/120 ops insert/update/remove/look/iter/advance/advance-to-timeout±1ms/take_applied; after every op the raw table is compared with the model and the model-free invariants are evaluated; non-trivial = a pending entry was created and later applied, dropped or removed",
+        "local key in {0, all-ones, a SHA-256 image, 0x5a..01}; pool of 24 keys at chosen distances (1 in bucket 0, 2 in bucket 1, 8 in bucket 3, 5 in bucket 130, 8 in bucket 255) + the local key; bucket_size 1..4; pending_timeout 1..10 s; up to 60/120 ops insert/update/remove/look/iter/advance/advance-to-timeout±1ms/take_applied plus relative ops resolved against the current table (update/remove the waiting pending entry, update/remove the head of its bucket, insert a fresh key into its bucket); after every op the raw table is compared with the model and the model-free invariants are evaluated; non-trivial = a pending entry was created and later applied, dropped or removed",
         ctx.n(100_000, 2_500_000),
         &|| setup_strategy(max_ops).boxed(),
         &check,
